@@ -1,6 +1,8 @@
 """C10 — WhenAny completes once with the right winner for each fail policy (DESIGN.md §3 C10)."""
 from vlib import conc
 
+from . import _when
+
 RULES = ['regSet.installed', 'regSet.inline', 'fire', 'retire',
          'loadFlag.notdone', 'loadFlag.done', 'xchgFlag.win', 'xchgFlag.lose',
          'load3.value.go', 'load3.value.skip', 'load3.fail.go', 'load3.fail.skip', 'xchg3.win', 'xchg3.lose', 'cas3.ok', 'cas3.fail',
@@ -26,7 +28,8 @@ def run(res, tier):
         search_args=[['--family', 'any', '--mode', 'dfs', '--pb', '3', '--pb3', '2', '--wb', '1', '--max-exec', '400000'],
                      ['--family', 'any', '--mode', 'random', '--random-runs', '3000']],
         unmodelled_ok=NOT_EXHIBITABLE)
+    _when.sanitizer_pass(res, 'C10', tier, 'any', 'c10.cpp')
 
 
 def replay(path):
-    return conc.replay('C10', path)
+    return _when.replay('C10', path)
